@@ -28,7 +28,7 @@ PROPERTY = 'C14'
 TECHNIQUE = 'symbolic execution of the real integer layers and their fake-quantised counterparts on z3 integer activations (one unsat query per output element); binary_search on a z3 real against clamp(ceil(x/div)); concrete range observations of stored tensors'
 FUNCTIONS_ENCODED = ['binary_search', 'MATCHConv2d/MATCHLinear.__init__/forward/_integer_approximation (runs natively at construction)', 'MAUPITIConv2d/MAUPITILinear.__init__/forward',
                      'QuantConv2d/QuantLinear.forward', 'PACTActSTE.forward', 'integerize_arch (graph rewrite natively)']
-BOUNDS = {'quick': 'binary_search: div = 2^-s (s = 0..6), ranges [1, H] with H in {1,2,3,8,33,64}; nets: Conv2d(1,2,2)-ReLU-flatten-Linear(8,2) on 3x3 inputs and Linear-ReLU-Linear, bits {8,4}, MATCH (24,24) and MAUPITI; large / mixed biases; construction variants bias on/off, dilation (2,1)/(1,2)',
+BOUNDS = {'quick': 'binary_search: div = 2^-s (s = 0..6), ranges [1, H] with H in {1,2,3,8,33,64}; nets: Conv2d(1,2,2)-ReLU-flatten-Linear(8,2) on 3x3 inputs and Linear-ReLU-Linear, bits {8,4}, MATCH (24,24) and MAUPITI; MATCH also with the input at another precision than the layer outputs (4 vs 8) and scale_bit 16 / 12 with the default shift range; large / mixed biases; construction variants bias on/off, dilation (2,1)/(1,2)',
           'thorough': 'bits {2,4,8}, MATCH (16,32) options, fully-convolutional final layer, 2 channels depthwise'}
 OUTSIDE = ['ONNX export (package missing)', 'CUDA', 'the DIANA backend', 'whole-network error accumulation (per-layer comparison on the integer network\'s own activations, as the statement prescribes)']
 ASSUMPTIONS = ['integer activations within the declared range of the layer input', 'weights, biases and scales are concrete (those of a tiny trained-like model with dyadic weights); _integer_approximation runs concretely']
@@ -83,6 +83,11 @@ def instances(tier, seed):
                 if be == 'MAUPITI' and (kw.get('big_bias') or net == 'F'):
                     continue
                 opts = [{}] + ([{'scale_bit': 16, 'shift_pos': 32}] if (tier == 'thorough' and be == 'MATCH') else [])
+                if be == 'MATCH' and not kw and net in ('C', 'F'):
+                    # input activations at another precision than the layer outputs; non-default scale widths with the default shift range
+                    opts += [{'in_bits': 4 if b == 8 else 8}]
+                    if b == 8 and net == 'C':
+                        opts += [{'scale_bit': 16}, {'scale_bit': 12}]
                 for o in opts:
                     out.append({'id': f'{be}:{net}{kw}:bits={b}:{o}', 'what': 'net', 'backend': be, 'net': net, 'kw': kw, 'bits': b, 'opts': o, 'wseed': seed})
     for be in ('MATCH', 'MAUPITI'):
@@ -111,7 +116,13 @@ def _build(net, kw, bits, backend, opts, wseed=0):
                 vals = np.array([9.0, 0.125, 30.0, -0.25][:p.numel()] + [0.5] * max(0, p.numel() - 4), dtype='float32')
             p.copy_(torch.tensor(vals).reshape(p.shape))
     shape = (3,) if net == 'L' else (1, 3, 3)
-    m = MPS(model, input_shape=shape, qinfo=get_default_qinfo((bits,), (bits,)))
+    opts = dict(opts)
+    qinfo = get_default_qinfo((bits,), (bits,))
+    in_bits = opts.pop('in_bits', None)
+    if in_bits:
+        # mixed activation precisions: the network input is quantised at another bit-width than the layers' outputs
+        qinfo['input_default']['search_precision'] = (in_bits,)
+    m = MPS(model, input_shape=shape, qinfo=qinfo)
     m.eval()
     x0 = torch.rand(2, *shape)
     m(x0)
@@ -297,8 +308,6 @@ def _run_net(res, p, selftest):
         res.oblige(False)
         _viol(res, dict(base, observable='construct', key=f'{be}|construct|{net}{kw}'), f'construction failed: {type(ex_).__name__}: {ex_}'[:300], selftest)
         return
-    off = 0 if be == 'MATCH' else 2 ** (bits - 1)
-    lo, hi = (0, 2 ** bits - 1) if be == 'MATCH' else (-2 ** (bits - 1), 2 ** (bits - 1) - 1)
     # shapes of the activations entering each layer
     shapes = {}
     hooks = [ic.register_forward_pre_hook(lambda m_, inp, _n=n: shapes.__setitem__(_n, tuple(inp[0].shape))) for n, qc, ic in _pairs(e, i)]
@@ -307,7 +316,10 @@ def _run_net(res, p, selftest):
     for h in hooks:
         h.remove()
     for n, qc, ic in _pairs(e, i):
-        pr = stored_problem(n, ic, be, bits)
+        ib = int(qc.in_quantizer.precision)          # the declared range of THIS layer's input (precisions may differ from layer to layer)
+        off = 0 if be == 'MATCH' else 2 ** (ib - 1)
+        lo, hi = (0, 2 ** ib - 1) if be == 'MATCH' else (-2 ** (ib - 1), 2 ** (ib - 1) - 1)
+        pr = stored_problem(n, ic, be, int(qc.w_quantizer.precision))
         res.oblige(pr is None)
         if pr:
             _viol(res, dict(base, observable='stored', key=f'{be}|stored|{net}{kw}|{n}'), pr, selftest)
